@@ -50,6 +50,9 @@ func (s *State) clone() *State {
 
 type Cover struct {
 	Name   string
+	before string // site cover: path condition before the clause was assumed
+	oblig  *Obligation // site cover: the obligation of the clause (the cover is only needed when it fails)
+	Poison bool   // the clause contradicts a reachable state: everything after it would hold vacuously
 	prefix int
 	pc     string
 	smt    *SMT
@@ -119,6 +122,7 @@ type Frame struct {
 
 type Exec struct {
 	siteMatched map[*Clause]bool // site clauses that applied to at least one call
+	borrowedLoop map[string]int // loops of inlined contract-less helpers -> loop ordinal in the enclosing contract
 	declNames  map[*ssa.Function]map[string]bool
 	panicMode  bool // deferred calls are being run because of a panic
 	didRecover bool // recover() was evaluated in panic mode
@@ -957,9 +961,16 @@ func (x *Exec) enterLoop(fr *Frame, b *ssa.BasicBlock, li *loopInfo, edges []edg
 		}
 	}
 	for _, inv := range invs {
-		g := x.evalSpecBool(fr, se, fr.entry, inv.Expr, nil)
-		name := fmt.Sprintf("%s/loop%d.inv.%s.entry", x.prog.relName(x.topFn), li.index, inv.Label)
-		if !fr.top {
+		var outer map[string]Val
+		idx := li.index
+		borrowed := fr.ctr == nil
+		if borrowed {
+			outer = x.outerEnv(fr, se)
+			idx = inv.Loop
+		}
+		g := x.evalSpecBool(fr, se, fr.entry, inv.Expr, outer)
+		name := fmt.Sprintf("%s/loop%d.inv.%s.entry", x.prog.relName(x.topFn), idx, inv.Label)
+		if !fr.top && !borrowed {
 			name += "~in~" + fr.fn.Name()
 		}
 		x.oblige(se, "inv.entry", x.siteName(name), inv.Tags, b.Instrs[0].Pos(), g)
@@ -1052,7 +1063,11 @@ func (x *Exec) enterLoop(fr *Frame, b *ssa.BasicBlock, li *loopInfo, edges []edg
 		}
 	}
 	for _, inv := range invs {
-		g := x.evalSpecBool(fr, sh, fr.entry, inv.Expr, nil)
+		var outer map[string]Val
+		if fr.ctr == nil {
+			outer = x.outerEnv(fr, sh)
+		}
+		g := x.evalSpecBool(fr, sh, fr.entry, inv.Expr, outer)
 		x.smt.Assert(implies(sh.pc, g))
 	}
 	if autoPhi != nil {
@@ -1080,9 +1095,78 @@ func (x *Exec) havocAllFuture(st *State) {
 	x.pendingHavoc(st, "")
 }
 
+// borrowedInvariants: a loop that was moved into an extracted helper (inlined here, no contract of its
+// own) keeps the invariants the enclosing function's contract states for it. The loops of such helpers
+// continue the numbering of the loops the function under verification still has itself, in the order
+// in which they are first reached. A convenience like the name healing: every clause is still proved.
+func (x *Exec) borrowedInvariants(fr *Frame, li *loopInfo) []*Clause {
+	if fr.ctr != nil || fr.parent == nil {
+		return nil
+	}
+	top := fr
+	for top.parent != nil {
+		top = top.parent
+	}
+	if !top.top || top.ctr == nil {
+		return nil
+	}
+	if x.borrowedLoop == nil {
+		x.borrowedLoop = map[string]int{}
+	}
+	key := fmt.Sprintf("%s#%d", fr.fn.String(), li.index)
+	k, ok := x.borrowedLoop[key]
+	if !ok {
+		k = len(findLoops(top.fn)) + len(x.borrowedLoop)
+		x.borrowedLoop[key] = k
+	}
+	var r []*Clause
+	for _, c := range top.ctr.Clauses {
+		if c.Kind == "invariant" && c.Loop == k {
+			r = append(r, c)
+			if x.siteMatched == nil {
+				x.siteMatched = map[*Clause]bool{}
+			}
+			x.siteMatched[c] = true
+		}
+	}
+	return r
+}
+
+// outerEnv: the source-level names of the frames that enclose an inlined frame (inner frames shadow
+// outer ones; names of the inlined frame itself are not included: they resolve natively).
+func (x *Exec) outerEnv(fr *Frame, st *State) map[string]Val {
+	var chain []*Frame
+	for f := fr.parent; f != nil; f = f.parent {
+		chain = append([]*Frame{f}, chain...)
+	}
+	env := map[string]Val{}
+	for _, f := range chain {
+		fe := map[string]Val{}
+		for k, v := range f.params {
+			fe[k] = v
+		}
+		for k, v := range f.locals(x, st) {
+			if _, ok := fe[k]; !ok {
+				fe[k] = v
+			}
+		}
+		x.aliasEnv(f.fn, fe)
+		for k, v := range fe {
+			env[k] = v
+		}
+	}
+	for k := range fr.params {
+		delete(env, k)
+	}
+	for k := range fr.locals(x, st) {
+		delete(env, k)
+	}
+	return env
+}
+
 func (x *Exec) loopInvariants(fr *Frame, li *loopInfo) []*Clause {
 	if fr.ctr == nil {
-		return nil
+		return x.borrowedInvariants(fr, li)
 	}
 	var r []*Clause
 	for _, c := range fr.ctr.Clauses {
@@ -1138,10 +1222,17 @@ func (x *Exec) backEdge(fr *Frame, from *ssa.BasicBlock, li *loopInfo, st *State
 		}
 	}
 	for _, inv := range x.loopInvariants(fr, li) {
-		g := x.evalSpecBool(fr, st, fr.entry, inv.Expr, nil)
+		var outer map[string]Val
+		idx := li.index
+		borrowed := fr.ctr == nil
+		if borrowed {
+			outer = x.outerEnv(fr, st)
+			idx = inv.Loop
+		}
+		g := x.evalSpecBool(fr, st, fr.entry, inv.Expr, outer)
 		label := x.edgeLabel(from)
-		name := fmt.Sprintf("%s/loop%d.inv.%s.preserve@%s", x.prog.relName(x.topFn), li.index, inv.Label, label)
-		if !fr.top {
+		name := fmt.Sprintf("%s/loop%d.inv.%s.preserve@%s", x.prog.relName(x.topFn), idx, inv.Label, label)
+		if !fr.top && !borrowed {
 			name += "~in~" + fr.fn.Name()
 		}
 		x.oblige(st, "inv.preserve", x.siteName(name), inv.Tags, from.Instrs[len(from.Instrs)-1].Pos(), g)
